@@ -109,8 +109,8 @@ def _tree(n, op, atoms):
     return n.op == op and len(leaves) == len(atoms) and {l.id for l in leaves} == {a.id for a in atoms}
 
 def implementation_ranges(ck, ctx, fwd, fa):
-    """H in [0,360), S <= 1, L in [0,1] for the values the binary32 code computes on all of [0,1]^3
-    (direct enclosures of the computed values; two monotonicity-of-rounding lemmas, stated below)"""
+    """H in [0,360), S in [0,1], L in [0,1] for the values the binary32 code computes on all of [0,1]^3
+    (direct enclosures of the computed values; three monotonicity-of-rounding lemmas, stated below)"""
     from engine import realerr
     from engine.ival import I
     atoms = [fa[i] for i in sorted(fa)] if isinstance(fa, dict) else list(fa)
@@ -125,10 +125,13 @@ def implementation_ranges(ck, ctx, fwd, fa):
             mx = n.args[0]; sm = n.args[1].args[0]
             if sm.op == 'fadd' and sm.args[0] is mx and _tree(mx, 'call:max', atoms) and _tree(sm.args[1], 'call:min', atoms):
                 return I(0.0, float('inf'))
+        # (N) fl(max - min) >= 0: max >= min over the same three inputs and rounding is monotone (fl(0) = 0)
+        if n.op == 'fsub' and _tree(n.args[0], 'call:max', atoms) and _tree(n.args[1], 'call:min', atoms):
+            return I(0.0, float('inf'))
         return None
     env = {a.id: I(0.0, 1.0) for a in atoms}
     names = ['H', 'S', 'L']
-    want = {'H': (0.0, 360.0, True), 'S': (None, 1.0, False), 'L': (0.0, 1.0, False)}
+    want = {'H': (0.0, 360.0, True), 'S': (0.0, 1.0, False), 'L': (0.0, 1.0, False)}
     for nm, e in zip(names, fwd.fields):
         key = f"C17/computed-range/{nm}"
         try:
@@ -138,7 +141,7 @@ def implementation_ranges(ck, ctx, fwd, fa):
         lo, hi, strict = want[nm]
         ok = (lo is None or R.lo >= lo) and (R.hi < hi if strict else R.hi <= hi)
         if ok:
-            ck.ob(key, 'PROVED', f"computed {nm} lies in [{R.lo:.6g}, {R.hi:.9g}] for every pixel of [0,1]^3" + (' (upper bound only; S >= 0 is decided at formula level)' if nm == 'S' else ''))
+            ck.ob(key, 'PROVED', f"computed {nm} lies in [{R.lo:.6g}, {R.hi:.9g}] for every pixel of [0,1]^3" + (' (the two epsilon guards on L keep the computed denominator 1 - |2L - 1| >= 2^-22; the numerator is >= 0 by lemma M)' if nm == 'S' else ''))
         else:
             w = range_witness(ctx, e, atoms, lo, hi, strict) 
             ck.ob(key, 'REFUTED' if w else 'UNDECIDED',
@@ -363,5 +366,5 @@ def run(tier):
         ck.ob(f"C17/doc/L={lv}", 'PROVED' if ok else 'REFUTED', f"L = {lv} gives ({want},{want},{want}) for every finite hue and saturation" if ok else f"L = {lv} gives {[[X.show(x, 4) for x in v] for v in vals]}")
     implementation_ranges(ck, ctx, fwd, fa)
     ck.floor('cells', 12)
-    ck.note('not_decided', ['the round trip within 1e-5 under rounding (formula level only)', 'S >= 0 for the computed value (formula level)'])
+    ck.note('not_decided', ['the round trip within 1e-5 under rounding (formula level only)'])
     return ck.finish()
